@@ -1,0 +1,1 @@
+pub use crate::units::bgp_tcp_in::verif::*;
